@@ -318,6 +318,10 @@ class SArr:
     def _map2(self, o, f, dtype=None):
         if isinstance(o, real_np.ndarray) and o.ndim == 0:
             o = o.item()
+        if not isinstance(o, (SArr, list, tuple, real_np.ndarray, str)) \
+                and not _is_sym(o) and hasattr(o, "__len__") and \
+                hasattr(o, "__getitem__"):
+            o = [o[i] for i in range(len(o))]      # generic sequence
         if isinstance(o, (SArr, list, tuple, real_np.ndarray)):
             ol = list(o)
             a = self.elems
@@ -372,6 +376,39 @@ class SArr:
 
     def __neg__(s):
         return s._map(lambda a: -a)
+
+    def __pow__(s, k):
+        if not isinstance(k, int) or k < 0 or k > 6:
+            raise NotModelled("array ** %r" % (k,))
+
+        def pw(a):
+            a = _num(a)
+            r = 1
+            for _ in range(k):
+                r = r * a
+            return r
+        return s._map(pw)
+
+    def __abs__(s):
+        return s._map(lambda a: abs(_num(a)))
+
+    def __isub__(s, o):
+        r = s.__sub__(o)
+        s.elems[:] = r.elems
+        s.version += 1
+        return s
+
+    def __iadd__(s, o):
+        r = s.__add__(o)
+        s.elems[:] = r.elems
+        s.version += 1
+        return s
+
+    def __imul__(s, o):
+        r = s.__mul__(o)
+        s.elems[:] = r.elems
+        s.version += 1
+        return s
 
     def __lt__(s, o):
         return s._map2(o, lambda a, b: _cmp(a, b, "lt"), bool)
@@ -683,6 +720,39 @@ class SymNP:
     def zeros_like(a, dtype=None):
         dt = real_np.dtype(dtype or a.dtype)
         return SArr([False if dt == bool else 0] * len(a), dt)
+
+    @staticmethod
+    def roll(a, k):
+        e = list(a)
+        k = k % len(e) if e else 0
+        return SArr(e[-k:] + e[:-k] if k else e, a.dtype)
+
+    @staticmethod
+    def diff(a):
+        e = list(a)
+        return SArr([_num(y) - _num(x) for x, y in zip(e, e[1:])],
+                    getattr(a, "dtype", float))
+
+    @staticmethod
+    def resize(a, n):
+        e = list(a)
+        n = _conc_int(n)
+        out = [e[i % len(e)] for i in range(n)]
+        return SArr(out, getattr(a, "dtype", float))
+
+    @staticmethod
+    def copy(a):
+        return a.copy()
+
+    @staticmethod
+    def atleast_1d(a):
+        if isinstance(a, (SArr, SMat)):
+            return a
+        if _is_sym(a):
+            return SArr([a], float)
+        return real_np.atleast_1d(a)
+
+    pi = real_np.pi
 
     @staticmethod
     def full(shape, fill, dtype=float):
